@@ -18,7 +18,8 @@ BOUNDS = {
     'quick': 'owner in {root build function, subbuild, build_file} returning or raising (caught by its caller); one straggler thread '
              'calling one of the 12 builder methods on the owner\'s builder; every schedule with at most 3 pre-emptions, yield '
              'point = every library system call and lock acquire; also the straggler started strictly after the close (after the '
-             'build, and after the owner\'s function but inside the same build); family published: the straggler first asks the root '
+             'build, and after the owner\'s function but inside the same build), also when the owner\'s function itself asked the same question '
+             '(for reads: any of the three read methods) as its last operation; family published: the straggler first asks the root '
              'builder whether the owner\'s output file exists and calls the owner\'s builder afterwards - once the output is visible the call must be rejected',
     'thorough': 'pre-emption bound 4',
 }
@@ -43,7 +44,11 @@ def families(tier):
                                               'raises': [False]}, 'weight': 2},
              {'name': 'after-close', 'params': {'P': 0, 'methods': METHODS}, 'weight': 1},
              {'name': 'after-close', 'params': {'P': 0, 'methods': ['is_dir', 'declare_read', 'subbuild', 'build_file'], 'raises': ['base']}, 'weight': 1},
-             {'name': 'after-owner', 'params': {'P': 0, 'methods': METHODS, 'owners': ['subbuild', 'build_file']}, 'weight': 1}])
+             {'name': 'after-owner', 'params': {'P': 0, 'methods': METHODS, 'owners': ['subbuild', 'build_file']}, 'weight': 1},
+             # the owner's function asked the very same question (or, for reads, a sibling of it) as its last operation:
+             # a repeat after the close must be rejected like any other call, not answered from the record
+             {'name': 'after-close', 'params': {'P': 0, 'methods': QUERIES, 'pre': True}, 'weight': 1},
+             {'name': 'after-owner', 'params': {'P': 0, 'methods': QUERIES, 'owners': ['subbuild', 'build_file'], 'pre': True}, 'weight': 1}])
 
 
 class Interrupt(BaseException):
@@ -152,6 +157,14 @@ def harness(eng, fam, P):
 
         def own_body(b2, fn=None):
             holder['b'] = b2
+            if P.get('pre') and method in QUERIES:
+                pm = ['declare_read', 'read_binary', 'read_text'] if method in ('declare_read', 'read_binary', 'read_text') else [method]
+                pre = pm[eng.choose('pre', len(pm))]
+                r0 = getattr(b2, pre)(probe)
+                if hasattr(r0, 'close'):
+                    r0.close()
+                res['pre'] = pre
+                eng.path_info['owner_asked_first'] = pre
             if fam == 'race':
                 s.spawn(lambda: call(b2), 'straggler')
             if fam == 'published':
@@ -218,7 +231,8 @@ def harness(eng, fam, P):
             mine = [r for r in recs if r[0] == 'subbuild' and r[1] == 'strag']
         else:
             mine = [r for r in recs if r[0] == 'build_file' and r[1] == out]
-        info = {'result': v, 'records_of_the_call': mine, 'schedule': s.trace[:8]}
+        npre = 1 if res.get('pre') and owner != 'root' else 0      # the owner's own record of the same question
+        info = {'result': v, 'records_of_the_call': mine, 'schedule': s.trace[:8], 'owner_asked_first': res.get('pre')}
         if fam == 'published':
             # only this family's own obligation (the generic ones are the business of the race family)
             if res.get('seen'):
@@ -234,7 +248,7 @@ def harness(eng, fam, P):
         if v[0] == 'RuntimeError':
             eng.witness('straggler-rejected')
             # rejected: no effect at all
-            eng.check('C17.rejected-call-left-a-record', not mine, sig, info=info)
+            eng.check('C17.rejected-call-left-a-record', len(mine) <= npre, sig, info=info)
             eng.check('C17.rejected-call-ran-user-function', not invoked, sig, info=dict(info, invoked=list(invoked)))
             if method in ('build_file', 'build_file_with_comparison'):
                 eng.check('C17.rejected-call-left-a-file', w.fs.kind(out) == ABSENT, sig, info=info)
@@ -249,7 +263,7 @@ def harness(eng, fam, P):
             # completed before the close: it is part of the owner's record (queries on the root builder are not recorded)
             if owner != 'root' or method in COMPLEX:
                 if not (owner_raises and owner == 'build_file' and False):
-                    eng.check('C17.completed-call-missing-from-record', len(mine) == 1 and mine[0][2] == own_name, sig, info=info)
+                    eng.check('C17.completed-call-missing-from-record', len(mine) == 1 + npre and mine[-1][2] == own_name, sig, info=info)
             if method in ('build_file', 'build_file_with_comparison'):
                 eng.check('C17.completed-build_file-has-no-file', w.fs.kind(out) == FILE, sig, info=info)
             eng.witness('straggler-completed-and-recorded')
